@@ -47,8 +47,14 @@ def _label(term):
     """labels of the accessor calls a value passes through, outermost first, joined with '<'"""
     labs = []
     for x in mir.walk_expr(term):
-        if x[0] == "call" and x[1] in ACCESSOR_LABEL and ACCESSOR_LABEL[x[1]] not in labs:
-            labs.append(ACCESSOR_LABEL[x[1]])
+        if x[0] != "call":
+            continue
+        key = x[1]
+        if key == "str::parse" and len(x) > 5 and x[5]:
+            # s.parse::<F>() is <F as FromStr>::from_str(s)
+            key = "<%s as FromStr>::from_str" % mir.short(x[5][0].get("s", "?"))
+        if key in ACCESSOR_LABEL and ACCESSOR_LABEL[key] not in labs:
+            labs.append(ACCESSOR_LABEL[key])
     return "<".join(labs) if labs else None
 
 
